@@ -1,9 +1,438 @@
-import Model.Common
-/-! Oracle handlers for C19 (stub until the property's model exists). -/
+import Model.C19
+/-! Oracle handlers for C19: model output (correspondence) and judge (property on impl output). -/
 namespace OracleC19
-open Common
+open Common C19
 
-def handle (_cmd : String) (_f : List String) : String × String × String :=
-  ("unknown-cmd", "-", "-")
+/-! ### parsing helpers -/
+
+def splitNE (sep : String) (s : String) : List String := if s == "" then [] else s.splitOn sep
+
+def hexList? (s : String) : Option (List Bytes) :=
+  if s == "~" ∨ s == "" then some [] else (s.splitOn ",").mapM hexDecode
+
+def int? (s : String) : Option Int := s.toInt?
+
+/-- compact value names (see `c19Namer` in the harness). -/
+structure Names where
+  vals : List Bytes
+  encs : List (Bytes × Bytes)   -- (plain, encoded) pairs of the encoder table
+
+def Names.render (n : Names) (b : Bytes) : String :=
+  match n.vals.idxOf? b with
+  | some i => "#" ++ toString i
+  | none =>
+    match (n.encs.map (·.2)).idxOf? b with
+    | some j => "e" ++ toString j
+    | none => hexEncode b
+
+def Names.parse (n : Names) (s : String) : Option Bytes :=
+  if s.startsWith "#" then (s.drop 1).toString.toNat? >>= fun i => n.vals[i]?
+  else if s.startsWith "e" then (s.drop 1).toString.toNat? >>= fun j => (n.encs[j]?).map (·.2)
+  else hexDecode s
+
+def parseEncs (s : String) : Option (List (Bytes × Bytes)) :=
+  if s == "-" then some [] else
+  (s.splitOn ",").mapM fun p =>
+    match p.splitOn "=" with
+    | [a, b] => do let x ← hexDecode a; let y ← hexDecode b; pure (x, y)
+    | _ => none
+
+/-- the oracle's codec: snappy.Encode's answers as observed (table), the real block decoder. -/
+def codecOf (n : Names) : Codec :=
+  { enc := fun b => match n.encs.find? (fun p => p.1 == b) with
+                    | some p => p.2
+                    | none => b
+    dec := snappyDecode }
+
+inductive Tok
+  | lru (size : Nat) (d : Int)
+  | ver (a : Nat) (b : Option Nat)
+  | snap
+
+def parseTok (s : String) : Option Tok :=
+  if s == "S" then some .snap
+  else if s.startsWith "L" then
+    match (s.drop 1).toString.splitOn ":" with
+    | [a, b] => do let x ← a.toNat?; let y ← int? b; pure (.lru x y)
+    | _ => none
+  else if s.startsWith "V" then
+    match (s.drop 1).toString.splitOn ":" with
+    | [a] => do let x ← a.toNat?; pure (.ver x none)
+    | [a, b] => do let x ← a.toNat?; let y ← b.toNat?; pure (.ver x (some y))
+    | _ => none
+  else none
+
+def Tok.layer (c : Nat) : Tok → Layer
+  | .lru s d => .lru s d []
+  | .ver a none => .ver a
+  | .ver a (some b) => .ver (if c = 0 then a else b)
+  | .snap => .snap
+
+def Tok.isSplit : Tok → Bool
+  | .ver _ (some _) => true
+  | _ => false
+
+/-- the whole system: private upper parts per client, shared lower part. -/
+structure Sys where
+  ups : List (List Layer)
+  low : List Layer
+  be : Backend
+  wall : Int
+
+def mkSys (toks : List Tok) : Sys :=
+  match toks.findIdx? Tok.isSplit with
+  | some i =>
+    let up := toks.take (i + 1)
+    { ups := [up.map (Tok.layer 0), up.map (Tok.layer 1)], low := (toks.drop (i + 1)).map (Tok.layer 0), be := ⟨[], 0⟩, wall := 0 }
+  | none => { ups := [toks.map (Tok.layer 0)], low := [], be := ⟨[], 0⟩, wall := 0 }
+
+def Sys.path (s : Sys) (c : Nat) : List Layer := (s.ups.getD c []) ++ s.low
+
+def isLru : Layer → Bool
+  | .lru .. => true
+  | _ => false
+
+def isSnap : Layer → Bool
+  | .snap => true
+  | _ => false
+
+/-- align the observed per-LRU key orders with the layers of a path. -/
+def alignHints : List Layer → List (List Key) → List (List Key)
+  | [], _ => []
+  | l :: ls, hs => if isLru l then hs.headD [] :: alignHints ls hs.tail else [] :: alignHints ls hs
+
+def Sys.apply (cd : Codec) (s : Sys) (c : Nat) (op : Op) (hs : List (List Key)) : Sys × Obs :=
+  let p := s.path c
+  let r := step cd ⟨p, s.be, s.wall⟩ op (alignHints p hs)
+  let n := (s.ups.getD c []).length
+  ({ ups := s.ups.set c (r.1.layers.take n), low := r.1.layers.drop n, be := r.1.be, wall := r.1.wall }, r.2)
+
+/-! ### operations -/
+
+def parseKV (n : Names) (s : String) : Option Res :=
+  if s == "" then some [] else
+  (s.splitOn ",").mapM fun p =>
+    match p.splitOn "=" with
+    | [a, b] => do let k ← hexDecode a; let v ← n.parse b; pure (k, v)
+    | _ => none
+
+/-- `(client, op, kindLetter)` -/
+def parseOp (n : Names) (s : String) : Option (Nat × Op × String) :=
+  match s.splitOn ":" with
+  | [h, a] =>
+    if h == "tv" then (int? a).map fun d => (0, .advV d, "tv")
+    else if h == "tw" then (int? a).map fun d => (0, .advW d, "tw")
+    else if h == "tb" then (int? a).map fun d => (0, .advBoth d, "tb")
+    else
+      let kind := (h.take 1).toString
+      match (h.drop 1).toString.toNat? with
+      | none => none
+      | some c =>
+        if kind == "g" ∨ kind == "G" then (hexList? a).map fun ks => (c, .get ks, kind)
+        else if kind == "x" then (hexDecode a).map fun k => (c, .del k, kind)
+        else none
+  | [h, a, b] =>
+    if h.startsWith "m" then do
+      let c ← (h.drop 1).toString.toNat?
+      let d ← parseKV n a
+      let t ← int? b
+      pure (c, .setMulti d t, "m")
+    else none
+  | [h, a, b, t] => do
+    let kind := (h.take 1).toString
+    let c ← (h.drop 1).toString.toNat?
+    let k ← hexDecode a
+    let v ← n.parse b
+    let ttl ← int? t
+    if kind == "s" then pure (c, .set k v ttl, kind)
+    else if kind == "a" then pure (c, .setAsync k v ttl, kind)
+    else if kind == "d" then pure (c, .add k v ttl, kind)
+    else none
+  | [h, a, p, b, t] => do
+    let c ← (h.drop 1).toString.toNat?
+    let k ← hexDecode a
+    let ph ← hexDecode p
+    let v ← hexDecode b
+    let ttl ← int? t
+    if h.startsWith "r" then pure (c, .raw k ph v ttl, "r") else none
+  | _ => none
+
+/-! ### rendering the model's observation -/
+
+def sortRes (r : Res) : Res := r.mergeSort fun a b => bytesLe a.1 b.1
+
+def renderRes (n : Names) (r : Res) : String :=
+  if r.isEmpty then "-" else ",".intercalate ((sortRes r).map fun kv => hexEncode kv.1 ++ "=" ++ n.render kv.2)
+
+def renderKeys (ks : List Key) : String :=
+  if ks.isEmpty then "~" else ",".intercalate (ks.map hexEncode)
+
+def lruOrders (p : List Layer) : List String :=
+  p.filterMap fun l => match l with
+    | .lru _ _ e => some (renderKeys (e.map (·.1)).reverse)
+    | _ => none
+
+def renderHints (p : List Layer) : String :=
+  let o := lruOrders p
+  if o.isEmpty then "-" else "/".intercalate o
+
+def renderObs (n : Names) (kind : String) (o : Obs) (p : List Layer) : String :=
+  let res := match o with
+    | .none => "-"
+    | .added ok => if ok then "ok" else "ns"
+    | .got r e => renderRes n r ++ "!" ++ (if kind == "G" then "?" else if e then "1" else "0")
+  res ++ "^" ++ renderHints p
+
+def renderItems (n : Names) (e : KV) : String :=
+  ",".intercalate (e.map fun kv => hexEncode kv.1 ++ "=" ++ n.render kv.2.data ++ "@" ++ toString kv.2.exp)
+
+def renderDump (n : Names) (s : Sys) : String :=
+  let be := "be:" ++ renderItems n (s.be.items.mergeSort fun a b => bytesLe a.1 b.1)
+  let nUp := (s.ups.getD 0 []).length
+  let lowParts := ((s.low.zipIdx).reverse).filterMap fun (l, i) => match l with
+    | .lru _ _ e => some (s!"low{i + nUp}:" ++ renderItems n e.reverse)
+    | _ => none
+  let upParts := (s.ups.zipIdx).flatMap fun (up, c) =>
+    ((up.zipIdx).reverse).filterMap fun (l, i) => match l with
+      | .lru _ _ e => some (s!"c{c}l{i}:" ++ renderItems n e.reverse)
+      | _ => none
+  "|".intercalate (be :: lowParts ++ upParts)
+
+/-! ### judge state for several clients (shared clocks), plus corrupt foreign writes -/
+
+structure MJ where
+  specs : List Spec
+  V : Int
+  W : Int
+  taint : List ((Nat × Key) × Int)   -- latest physical write under (client, key) is an undecodable foreign blob; its V-deadline
+
+def MJ.untaint (m : MJ) (c : Nat) (k : Key) : MJ := { m with taint := m.taint.filter fun t => !(t.1.1 == c && t.1.2 == k) }
+
+def parseGot (n : Names) (s : String) : Option (Res × String) :=
+  match s.splitOn "!" with
+  | [r, e] => (if r == "-" then some [] else parseKV n r).map fun x => (x, e)
+  | _ => none
+
+/-- one step of the judge on the implementation's own observation. -/
+def judgeStep (cfgs : List JCfg) (snaps : List Bool) (m : MJ) (c : Nat) (op : Op) (obsRes : String) (n : Names) : MJ × List String :=
+  let cfg := cfgs.getD c ⟨false, 0⟩
+  let j : JSt := ⟨m.specs.getD c [], m.V, m.W⟩
+  let fin (q : JSt × List String) (m : MJ) : MJ × List String :=
+    ({ m with specs := m.specs.set c q.1.spec, V := q.1.V, W := q.1.W }, q.2)
+  match op with
+  | .get keys =>
+    match parseGot n obsRes with
+    | none => (m, ["unparsable-get-result"])
+    | some (res, e) =>
+      let q := jstep cfg j op (.got res (e == "1"))
+      -- corrupt entries: dropped and reported (exact when no in-memory layer can hide the backend)
+      let tainted := keys.filter fun k => m.taint.any fun t => t.1.1 == c && t.1.2 == k
+      let liveTainted := keys.filter fun k => m.taint.any fun t => t.1.1 == c && t.1.2 == k && m.V < t.2
+      let r1 := if !cfg.hasLru ∧ snaps.getD c false ∧ liveTainted.any (fun k => (aGet k res).isSome) then ["corrupt-entry-returned"] else []
+      let r2 := if !cfg.hasLru ∧ snaps.getD c false ∧ !liveTainted.isEmpty ∧ e == "0" then ["corrupt-entry-not-reported"] else []
+      let r3 := if e == "1" ∧ tainted.isEmpty then ["error-without-corrupt-entry"] else []
+      fin (q.1, q.2 ++ r1 ++ r2 ++ r3) m
+  | .add k _ _ =>
+    if obsRes == "ok" then fin (jstep cfg j op (.added true)) (m.untaint c k)
+    else if obsRes == "ns" then fin (jstep cfg j op (.added false)) m
+    else (m, ["add-unexpected-error"])
+  | .set k _ _ | .setAsync k _ _ | .del k =>
+    let r := if obsRes == "-" then [] else ["unexpected-error"]
+    let q := jstep cfg j op .none
+    fin (q.1, q.2 ++ r) (m.untaint c k)
+  | .setMulti data _ =>
+    fin (jstep cfg j op .none) (data.foldl (fun m kv => m.untaint c kv.1) m)
+  | .raw k _ bytes ttl =>
+    let m' := m.untaint c k
+    if (snappyDecode bytes).isNone then ({ m' with taint := ((c, k), m.V + ttl) :: m'.taint }, [])
+    else (m', ["raw-write-decodable(harness)"])
+  | _ => fin (jstep cfg j op .none) m
+
+/-! ### C19.ops -/
+
+structure Acc where
+  sys : Sys
+  mj : MJ
+  diff : Option String
+  judge : List String
+  hits : Nat
+  gets : Nat
+  idx : Nat
+
+def handleOps (f : List String) : String × String × String :=
+  match f with
+  | [f1, opsS, encS, obsS, dumpS] =>
+    match f1.splitOn "|" with
+    | [stackS, valsS] =>
+      let toks? := if stackS == "-" then some [] else (stackS.splitOn ",").mapM parseTok
+      match toks?, hexList? valsS, parseEncs encS with
+      | some toks, some vals, some encs =>
+        let n : Names := ⟨vals, encs⟩
+        let cd := codecOf n
+        let sys0 := mkSys toks
+        let nCl := sys0.ups.length
+        let cfgs := (List.range nCl).map fun c => cfgOf (sys0.path c)
+        let snaps := (List.range nCl).map fun c => (sys0.path c).any isSnap
+        let ops := opsS.splitOn ";"
+        let obs := obsS.splitOn ";"
+        if ops.length != obs.length then ("bad-obs-count", "-", "-") else
+        let acc0 : Acc := ⟨sys0, ⟨List.replicate nCl [], 0, 0, []⟩, none, [], 0, 0, 0⟩
+        let acc := (ops.zip obs).foldl (fun (a : Acc) (oo : String × String) =>
+          match parseOp n oo.1 with
+          | none => { a with diff := a.diff <|> some s!"op{a.idx}:unparsable", idx := a.idx + 1 }
+          | some (c, op, kind) =>
+            let (resS, hintS) := match oo.2.splitOn "^" with
+              | [r, h] => (r, h)
+              | _ => (oo.2, "-")
+            let hs : List (List Key) := if hintS == "-" ∧ !((a.sys.path c).any isLru) then [] else
+              (hintS.splitOn "/").map fun h => (hexList? h).getD []
+            let r := a.sys.apply cd c op hs
+            let isClock := kind == "tv" ∨ kind == "tw" ∨ kind == "tb"
+            let mObs := if isClock then "-" else renderObs n kind r.2 (r.1.path c)
+            let d := if mObs == oo.2 then a.diff else a.diff <|> some s!"op{a.idx}:model={mObs}"
+            let jq := judgeStep cfgs snaps a.mj c op resS n
+            let isHit := match r.2 with | .got res _ => !res.isEmpty | _ => false
+            let isGet := match r.2 with | .got _ _ => true | _ => false
+            { sys := r.1, mj := jq.1, diff := d, judge := a.judge ++ jq.2.map (fun x => s!"op{a.idx}:{x}"),
+              hits := a.hits + (if isHit then 1 else 0), gets := a.gets + (if isGet then 1 else 0), idx := a.idx + 1 }) acc0
+        let mDump := renderDump n acc.sys
+        let diff := acc.diff <|> (if mDump == dumpS then none else some ("dump:model=" ++ mDump))
+        -- codec contract on the observed encoder table
+        let diff := diff <|> (if encs.all (fun p => snappyDecode p.2 == some p.1) then none else some "codec:dec(enc v)≠v")
+        let kinds := String.ofList (toks.map fun t => match t with | .lru .. => 'L' | .ver .. => 'V' | .snap => 'S')
+        let clk := if (ops.any (·.startsWith "tv")) ∨ (ops.any (·.startsWith "tw")) then "split" else if ops.any (·.startsWith "tb") then "one" else "none"
+        let tags := s!"ops stack={if kinds == "" then "none" else kinds} cl={nCl} n={if ops.length < 10 then "<10" else if ops.length < 40 then "<40" else "40+"} hits={min acc.hits 3} clk={clk}"
+        (diff.getD "-", if acc.judge.isEmpty then "-" else ",".intercalate acc.judge, tags)
+      | _, _, _ => ("bad-input", "-", "-")
+    | _ => ("bad-field1", "-", "-")
+  | _ => ("bad-fields", "-", "-")
+
+/-! ### C19.pick -/
+
+inductive Chunk
+  | num (n : Nat)
+  | str (s : Bytes)
+  deriving DecidableEq
+
+/-- judge-side natural order, written independently of `natLess`: compare digit runs by value and
+everything else bytewise, chunk by chunk; a proper prefix sorts first. -/
+def specChunks (s : Bytes) : List Bytes :=
+  let rec go : Bytes → Bytes → Bool → List Bytes
+    | [], cur, _ => if cur.isEmpty then [] else [cur.reverse]
+    | c :: cs, cur, d =>
+      let dc := (48 ≤ c && c ≤ 57)
+      if cur.isEmpty then go cs [c] dc
+      else if dc == d then go cs (c :: cur) d
+      else cur.reverse :: go cs [c] dc
+  go s [] false
+
+def numVal (s : Bytes) : Option Nat :=
+  if !s.isEmpty ∧ s.all (fun c => 48 ≤ c && c ≤ 57) then some (s.foldl (fun a c => a * 10 + (c.toNat - 48)) 0) else none
+
+def specLeChunks : List Bytes → List Bytes → Bool
+  | [], _ => true
+  | _ :: _, [] => false
+  | a :: as, b :: bs =>
+    match numVal a, numVal b with
+    | some x, some y => if x < y then true else if y < x then false else specLeChunks as bs
+    | _, _ => if bytesLt a b then true else if bytesLt b a then false else specLeChunks as bs
+
+def specNatLe (a b : Bytes) : Bool := specLeChunks (specChunks a) (specChunks b)
+
+def sortedBy (le : Bytes → Bytes → Bool) : List Bytes → Bool
+  | [] => true
+  | [_] => true
+  | a :: b :: r => le a b && sortedBy le (b :: r)
+
+def isPerm (a b : List Bytes) : Bool :=
+  a.length == b.length && a.all (fun x => a.count x == b.count x)
+
+set_option linter.unusedVariables false in
+def handlePick (f : List String) : String × String × String :=
+  match f with
+  | [srv, keysS, hashS, s1S, s2S, s3S, p1S, p3S] =>
+    match srv.splitOn "|" with
+    | [aS, bS, xS] =>
+      match hexList? aS, hexList? bS, hexDecode xS, hexList? keysS, (hashS.splitOn ",").mapM String.toNat?,
+            hexList? s1S, hexList? s2S, hexList? s3S with
+      | some a, some b, some x, some keys, some hashes, some s1, some s2, some s3 =>
+        -- model
+        let mSorted := natSort a
+        let mSorted3 := natSort (b ++ [x])
+        let mp1 := hashes.map fun h => match pick nextFloat mSorted (UInt64.ofNat h) with | some s => hexEncode s | none => "err"
+        let mp3 := hashes.map fun h => match pick nextFloat mSorted3 (UInt64.ofNat h) with | some s => hexEncode s | none => "err"
+        let model := [renderKeys mSorted |>.replace "~" "-", renderKeys (natSort b) |>.replace "~" "-", renderKeys mSorted3 |>.replace "~" "-", ",".intercalate mp1, ",".intercalate mp3]
+        let diff := if model == [s1S, s2S, s3S, p1S, p3S] then "-" else "model=" ++ " ".intercalate model
+        -- judge
+        let p1 := p1S.splitOn ","
+        let p3 := p3S.splitOn ","
+        let appended := s3 == s1 ++ [x]
+        let bad : List String :=
+          (if isPerm s1 a then [] else ["sorted-not-a-permutation-of-input"]) ++
+          (if isPerm s3 (b ++ [x]) then [] else ["sorted-ext-not-a-permutation-of-input"]) ++
+          (if sortedBy specNatLe s1 ∧ sortedBy specNatLe s3 then [] else ["not-in-natural-order"]) ++
+          (if s1 == s2 then [] else ["order-depends-on-input-order"]) ++
+          (if p1.any (fun p => p.contains '/') then ["choice-depends-on-input-order"] else []) ++
+          (if p1.all (fun p => p.contains '/' ∨ (s1.map hexEncode).contains p) then [] else ["pick-not-a-configured-server"]) ++
+          (if p3.all (fun p => (s3.map hexEncode).contains p) then [] else ["pick-ext-not-a-configured-server"]) ++
+          (if appended ∧ !((p1.zip p3).all fun (p, q) => q == p ∨ q == hexEncode x) then ["append-moved-key-to-old-server"] else [])
+        let moved := (p1.zip p3).countP fun (p, q) => p != q
+        let tags := s!"pick n={if a.length ≤ 1 then "1" else if a.length ≤ 8 then "2-8" else if a.length ≤ 32 then "9-32" else "33-64"} append={if appended then "last" else "mid"} moved={min moved 2} unix={a.any (·.head? == some 47)}"
+        (diff, if bad.isEmpty then "-" else ",".intercalate bad, tags)
+      | _, _, _, _, _, _, _, _ => ("bad-input", "-", "-")
+    | _ => ("bad-field1", "-", "-")
+  | _ => ("bad-fields", "-", "-")
+
+/-! ### C19.jump -/
+
+def handleJump (f : List String) : String × String × String :=
+  match f with
+  | [keyS, rangeS, resS] =>
+    match keyS.toNat?, (rangeS.splitOn ":").mapM String.toNat?, (resS.splitOn ",").mapM String.toInt? with
+    | some key, some [n0, cnt], some res =>
+      let k := UInt64.ofNat key
+      let model := (List.range cnt).map fun i => jump nextFloat k (n0 + i)
+      let diff := if model == res then "-" else "model=" ++ ",".intercalate (model.map toString)
+      -- judge: 0 ≤ r(n) < n and r(n+1) ∈ {r(n), n}
+      let inRange := (res.zipIdx).all fun (r, i) => 0 ≤ r ∧ r < (n0 + i : Nat)
+      let rec cons : List Int → Nat → Bool
+        | a :: b :: rest, n => (b == a || b == (n : Int)) && cons (b :: rest) (n + 1)
+        | _, _ => true
+      let bad := (if inRange then [] else ["bucket-out-of-range"]) ++ (if cons res n0 then [] else ["not-consistent"])
+      let moves := (res.zip res.tail).countP fun (a, b) => a != b
+      (diff, if bad.isEmpty then "-" else ",".intercalate bad, s!"jump n0={if n0 ≤ 8 then "1-8" else if n0 ≤ 70 then "9-70" else "big"} moves={min moves 2}")
+    | _, _, _ => ("bad-input", "-", "-")
+  | _ => ("bad-fields", "-", "-")
+
+/-! ### snappy codec tie -/
+
+def handleSnapDec (f : List String) : String × String × String :=
+  match f with
+  | [bS, origin, resS] =>
+    match hexDecode bS with
+    | some b =>
+      let m := match snappyDecode b with | some o => "ok:" ++ hexEncode o | none => "err"
+      (if m == resS then "-" else "model=" ++ (m.take 80).toString, "-", s!"snapdec origin={origin} res={(resS.take 2).toString}")
+    | none => ("bad-input", "-", "-")
+  | _ => ("bad-fields", "-", "-")
+
+def handleSnapEnc (f : List String) : String × String × String :=
+  match f with
+  | [pS, _, eS] =>
+    match hexDecode pS, hexDecode eS with
+    | some p, some e =>
+      -- "returns a stored value byte for byte" needs dec (enc v) = v
+      let ok := snappyDecode e == some p
+      (if ok then "-" else "model=dec(enc v)≠v", "-", s!"snapenc len={if p.length < 100 then "<100" else if p.length < 5000 then "<5000" else "big"} ratio={if e.length < p.length then "compressed" else "stored"}")
+    | _, _ => ("bad-input", "-", "-")
+  | _ => ("bad-fields", "-", "-")
+
+def handle (cmd : String) (f : List String) : String × String × String :=
+  if cmd == "C19.ops" then handleOps f
+  else if cmd == "C19.pick" then handlePick f
+  else if cmd == "C19.jump" then handleJump f
+  else if cmd == "C19.snapdec" then handleSnapDec f
+  else if cmd == "C19.snapenc" then handleSnapEnc f
+  else ("unknown-cmd", "-", "-")
 
 end OracleC19
